@@ -450,7 +450,7 @@ theorem VCJust_new (E : AEnv) (H : Hist) (env : Env) (h : Height) : VCJust E H (
    fun h rm hl => by simp [VoteCounter.new, lookupA] at hl⟩
 
 theorem VCJust_addVote (E : AEnv) (H : Hist) (env : Env) (vc : VoteCounter) (v : Vote) (t : VoteType)
-    (hpw : ∀ h a, env.power h a = E.power h a)
+    (hpw : env.power v.height v.sender = E.power v.height v.sender)
     (hj : VCJust E H vc) (hv : VJ E H v.height v.round v.id v.sender t) :
     VCJust E H (vc.addVote env v t).1 := by
   unfold VoteCounter.addVote
@@ -491,17 +491,19 @@ theorem VCJust_startNewHeight (E : AEnv) (H : Hist) (env : Env) (vc : VoteCounte
   VCAll_startNewHeight (RDJust E H) env vc hj
 
 /-- What the environment of the executable machine and the abstract environment must agree on. -/
-structure EnvOK (E : AEnv) (env : Env) : Prop where
+structure EnvOK (E : AEnv) (env : Env) (X : Addr → Prop := fun _ => False) : Prop where
   valid : E.valid = env.valid
   proposer : E.proposer = env.proposer
-  power : ∀ h a, env.power h a = E.power h a
+  /-- `X`: sender addresses whose messages never reach the machine (the driver drops them, e.g. the
+  sync pseudo-sender on the gossip path, d65a60f); the machine's `Validators` may give them any power -/
+  power : ∀ h a, ¬ X a → env.power h a = E.power h a
   total : ∀ h, env.totalPower h = E.N h
   fits : ∀ h, E.N h < 2 ^ 64
   nodup : E.vals.Nodup
   zero : ∀ h a, a ∉ E.vals → E.power h a = 0
 
 /-- A quorum reported by a justified vote counter is a quorum of the global history. -/
-theorem VCJust_quorum (E : AEnv) (H : Hist) (env : Env) (ok : EnvOK E env) (wf : E.WF) (vc : VoteCounter)
+theorem VCJust_quorum {X : Addr → Prop} (E : AEnv) (H : Hist) (env : Env) (ok : EnvOK E env X) (wf : E.WF) (vc : VoteCounter)
     (hq : vc.quorumVP = qOf (env.totalPower vc.cur)) (hj : VCJust E H vc) (r : Round) (t : VoteType) (v : Val)
     (hh : vc.hasQuorumForVote r t (some v) = true) :
     qN (E.N vc.cur) ≤ E.wsum vc.cur (fun a => VJ E H vc.cur r (some v) a t) := by
@@ -523,12 +525,12 @@ theorem VCJust_quorum (E : AEnv) (H : Hist) (env : Env) (ok : EnvOK E env) (wf :
     · omega
   · cases hh
 
-theorem VCJust_polka (E : AEnv) (H : Hist) (env : Env) (ok : EnvOK E env) (wf : E.WF) (vc : VoteCounter)
+theorem VCJust_polka {X : Addr → Prop} (E : AEnv) (H : Hist) (env : Env) (ok : EnvOK E env X) (wf : E.WF) (vc : VoteCounter)
     (hq : vc.quorumVP = qOf (env.totalPower vc.cur)) (hj : VCJust E H vc) (r : Round) (v : Val)
     (hh : vc.hasQuorumForVote r .prevote (some v) = true) : Polka E H vc.cur r v :=
   VCJust_quorum E H env ok wf vc hq hj r .prevote v hh
 
-theorem VCJust_pcq (E : AEnv) (H : Hist) (env : Env) (ok : EnvOK E env) (wf : E.WF) (vc : VoteCounter)
+theorem VCJust_pcq {X : Addr → Prop} (E : AEnv) (H : Hist) (env : Env) (ok : EnvOK E env X) (wf : E.WF) (vc : VoteCounter)
     (hq : vc.quorumVP = qOf (env.totalPower vc.cur)) (hj : VCJust E H vc) (r : Round) (v : Val)
     (hh : vc.hasQuorumForVote r .precommit (some v) = true) : PCQuorum E H vc.cur r v :=
   VCJust_quorum E H env ok wf vc hq hj r .precommit v hh
